@@ -4,7 +4,7 @@ import Ixd.GCPassProofs
 # C06 — collection removes exactly the garbage, converges, and is not starved
 
 Model: `Ixd.gc` (repoGarbageCollect, as repaired by F4), `Ixd.dirGC` (dirRepo.gc incl. the removal of an empty
-repository, as repaired by F5 and F7), `Ixd.memGC`, `Ixd.gcPass` (mem.gc / dir.gc, as repaired by F6); tied to the code
+repository, as repaired by F5 (both halves) and F7), `Ixd.memGC`, `Ixd.gcPass` (mem.gc / dir.gc, as repaired by F6); tied to the code
 by the `gc`, `gcdir`, `gcpass`, `gcpassdir` correspondence profiles (vlib/p_gc.py).
 
 "Once the grace period has elapsed (or is disabled)": the theorems below hold at every instant; when no blob is recent
@@ -128,6 +128,11 @@ theorem nonempty_kept (p : Policy) (e : Bool) (r : DirRepo)
     (halg : ∀ b ∈ r.blobs, algoOf b.dig ∈ r.algos) (b : Blob) (hb : b ∈ gcBlobs p r.index r.blobs) :
     HoldsBlob b r.layoutFile (dirGC p e r).1 :=
   blobs_keep_layout' p e r hload hbd halg b hb
+
+/-- after the pruning of an empty repository the store treats it as existing only if its `oci-layout` is still there: if
+    something foreign kept the directory while the layout files went, the next push initialises the repository again -/
+theorem pruned_live_has_layout (r : DirRepo) : (pruneEmpty r).live = true → (pruneEmpty r).layoutFile = true :=
+  pruned_live_has_layout' r
 
 /-- in every visiting order, every repository that is due is collected in the pass, and what the pass leaves of it is
     the result of its own collection — failing, removed or corrupt repositories anywhere in the order do not matter.
